@@ -72,3 +72,62 @@ claim("C19", "DESIGN.md section 7 (C19)",
       "regenerated source facts: the only socket write of the module is in writeToNode after the closed and blocklist tests, serve tests the source before processPacket, the passive test precedes the method switch, makeQueryBytes sets ro under Passive. " + SRV_TIE +
       "Outbound paths (ping, AddNode-triggered ping, questionable ping, announce and bootstrap traversals seeded with blocked and unblocked addresses) are exercised and every written datagram's destination and ro flag checked.",
       SRV_NOTE, "Lean 4 theorems + regenerated structural facts + trace validation across configurations")
+
+TRAV_TIE = ("Tied to the code on every run by trace validation: a real traversal.Operation (hooks: read-only snapshot) whose DoQuery parks every query until the harness's PRNG schedule releases it with a result from a generated response graph "
+            "(silent, lying, duplicate-ID nodes, one address under many IDs and across replies and seed sets, filtered addresses, ID-less seeds, late AddNodes, Stop); after each release the operation is polled to quiescence and its state (frontier in pop order, queried set, closest set, outstanding, have-more flag) "
+            "is compared with the Lean model's, the closest-set tie-break being taken from the observation and checked against the relational container spec; direct oracles on the implementation accompany every step. ")
+TRAV_NOTE = IDEAL + ("Atomic steps of the model are the critical sections of op.mu (mutual exclusion trusted). The Go scheduler cannot be forced: the lost-wake-up direction is carried by the regenerated statement-order facts plus the model theorem (with a kept counterexample for the wrong order); on the implementation it is observed as reaching quiescence / stalled within a deadline. "
+             "Replies that use both Nodes and Nodes6 with free slots are judged by the direct oracles only (the interleaving of the two AddNodes calls with the run loop is not replayed).")
+claim("C02", "DESIGN.md section 7 (C02)",
+      "Kernel-checked theorems over the traversal model for every history of events: the closest set has at most K elements in distance order without duplicate keys, every member answered a query of this lookup and passed node and data filters, and the set is exactly the K nearest (up to equal-distance ties) of the responders that passed the filters, each with its latest data. " + TRAV_TIE,
+      TRAV_NOTE + " The corollary for an honest finite network (result = the K closest nodes of the network) is not proved; the general statement above implies it given that every node of the network is eventually queried.",
+      "Lean 4 theorems (invariants over event histories) + trace validation of real traversals")
+claim("C03", "DESIGN.md section 7 (C03)",
+      "Kernel-checked theorems over the traversal model with the condition-variable protocol explicit (generation counter): no lost wake-up (a run loop asleep on the current generation has a current view), quiescent with nothing in flight => stalled is on offer, the run loop can always progress, "
+      "queries are bounded by the number of distinct reported addresses, at the stalled offer nothing is in flight and every remaining candidate is ID-less or strictly farther than the farthest member of a full result set, Stop completes once nothing is outstanding; the statement order the theorems need (channel taken before unlock, broadcast under lock) is a regenerated source fact, "
+      "and the counterexample for the wrong order is kept proved. " + TRAV_TIE,
+      TRAV_NOTE, "Lean 4 theorems + regenerated statement-order facts + trace validation")
+claim("C04", "DESIGN.md section 7 (C04)",
+      "Kernel-checked theorems over the traversal model for every history: never more than Alpha queries in flight, no address queried twice however often and under however many IDs it is reported, every queried address was reported by a candidate that passed the node filter; regenerated source facts: mark-queried precedes the launch, the per-query watcher cancels the context when the operation is stopping, four traversal start sites. " + TRAV_TIE,
+      TRAV_NOTE, "Lean 4 theorems + regenerated structural facts + trace validation")
+claim("C16", "DESIGN.md section 7 (C16)",
+      "Kernel-checked theorems over the announce model on top of the traversal model: announce_peer goes only to members of the final closest set, every member carries a token and is announced to, the token sent to a node is the one that node returned in this traversal (via C02's provenance theorem), at most K=8 announces to distinct keys; the acceptance predicate used for validation is sound for the property; the order stalled -> stop -> stopped -> announce -> finished -> close is a regenerated source fact. "
+      "Tied to the code by trace validation at the Conn boundary: simulated networks answering get_peers with distinct tokens / no token / values / errors / silence in PRNG order, options crossed, Close or StopTraversing at random points, consumer reading or not; every emitted announce_peer is decoded (independent bencode reader) and checked against the token that node issued, the set of destinations against the K nearest token-bearing responders, Peers delivery exactly once, channel closed, Finished() fires.",
+      TRAV_NOTE, "Lean 4 theorems + trace validation of real announces against a simulated network")
+claim("C15", "DESIGN.md section 7 (C15)",
+      "Kernel-checked theorems over the executable model of the KRPC wire codec: bencode values with a structural canonical encoder and the strict parser (what the untyped decoder accepts); "
+      "the parser inverts the encoder on every well-formed value with any trailing rest and accepts nothing but canonical encodings; the typed layer mirrors Msg/MsgArgs/Return/Bep51Return/Bep44Return/Error "
+      "field by field (field lists, keys, omitempty and the five compact element sizes pinned to the regenerated struct tags and ElemSize methods): encoding any well-formed message never panics, is canonical bencode, "
+      "and decodes to the same message up to the documented normalisation (empty compact list -> nil, contact width of the list); everything the decoder returns is well-formed and re-encodes to a fixpoint; "
+      "compact lists decode exactly the multiples of 6/18/26/38/20 bytes and re-encode identically; NodeAddr/NodeInfo binary decoders are total when the length test is present (the unguarded slice is an explicit crash outcome with a kept counterexample). "
+      "Tied to the Go code on every run by differential execution of bencode.Marshal/Unmarshal of generated krpc.Msg values over the full field set, byte- and tree-level mutations, raw bytes, the untyped parser, and every exported "
+      "Marshal*/Unmarshal* of package krpc at every length residue, plus Write/ReadNodesFromFile, with direct oracles (round trip, re-encode fixpoint, no panic, compact length law) independent of the model.",
+      IDEAL + "The reflection decoder's behaviour on shapes not transcribed (list or dictionary where a scalar field is expected and vice versa, unsorted or duplicate keys in typed dictionaries, non-canonical input that some decoder path could still consume) "
+      "is answered `unmodelled` by the model, counted in the evidence histogram and judged only by the direct oracles; panic-freedom of the third-party reflection decoder on arbitrary bytes is observed, not proved; its 128 MiB string limit is not modelled.",
+      "Lean 4 theorems + differential correspondence (Go vs compiled Lean driver)")
+
+claim("C12", "DESIGN.md section 7 (C12)",
+      "Kernel-checked theorems over the executable model of package bep44 (bufferToSign, Check, Item.Target, CheckIncoming, Wrapper.Put/Get over an abstract store with an explicit clock) and of the put/get handlers: for every history of puts/gets/clock advances every stored item verifies for its own (salt, seq, value) under its key, respects the regenerated size limits and sits under H(k||salt) or H(value); "
+      "what get serves is what is stored; a rejected put carries 205/207/206 in the order of the Go checks and leaves the store unchanged. ed25519 verification and SHA-1 are parameters of the model (no hypothesis about them is needed on the store side). "
+      "Client side (exts/getput): the acceptance rule of the get traversal is checked by the direct oracle in the hostile-reply streams of C01 and by the theorems' statement of Check; a dedicated client model is not yet built. "
+      "Tied to the code on every run by differential execution through the Lean driver of Wrapper.Put, wire puts and Server.Put with real ed25519 keys (signatures valid / valid for another field / bit-flipped, salts 0..70 bytes, values around 1000 encoded bytes of every bencode shape; each op carries what the signature was really made for), with a recording Store and direct oracles.",
+      IDEAL + "ed25519 is instantiated in the driver as 'verifies iff made for exactly this (key, message)' (idealised EUF-CMA); the getput client side is covered by oracles only.",
+      "Lean 4 theorems + differential correspondence (Go vs compiled Lean driver)")
+claim("C13", "DESIGN.md section 7 (C13)",
+      "Kernel-checked theorems over the bep44 model: for every sequential history the stored seq per target never decreases; lower seq or equal seq with another value => 302; a put with cas is refused with 301 unless cas equals the stored seq (the rule the code implements is selected by one flag that is differential-tested; a kept counterexample shows the pre-repair rule violates the property); an accepted put is what later gets return; get with seq sends the value only if the stored one is newer; expired items are not served. "
+      "Concurrency at the granularity of the store's Get/Put/Del calls: with the wrapper's mutex held across (regenerated facts wrapperPutLocked/GetLocked/SameLock from the source), for every thread list and schedule the store equals a sequential replay of the committed operations and every step is monotone; kept counterexample schedules (lost update, fresh item deleted by an expiring get) for the lock-less variant. "
+      "Tied to the code by differential histories against bep44.Wrapper and the wire, and by trace validation of concurrent Wrapper.Put/Get and Server.Put vs inbound put over a Store that parks every call until the harness's schedule releases it.",
+      IDEAL + "Wall-clock expiry is exercised with short Exp values; histories whose timing is ambiguous are counted as unmodelled.",
+      "Lean 4 theorems + differential correspondence + schedule-controlled trace validation")
+claim("C14", "DESIGN.md section 7 (C14)",
+      "Kernel-checked theorems over the small-step model of Server.Query (waiter || sender || handleResponse || environment): sends <= NumTries, every reachable non-terminal state has an enabled own step and own steps strictly decrease a measure (so every fair run returns, within 3*NumTries+11 own steps), the transaction is removed on return, the waiter returns only after the sender exited, time-out only after the last resend interval, nothing is sent by a query started after Close; "
+      "traversal ownership: an abstract interpretation over the regenerated control-flow graphs of every function that starts a traversal proves, for all paths incl. loops, that each return has the operation stopped, deferred-stopped, handed to a stopping goroutine or returned to a judged caller (certificate checked by decide +kernel; the exemption list is empty since the repairs). "
+      "Tied to the code by trace validation at the Conn boundary with enumerated fault placements (reply before/after each send or after time-out, cancel at each point, i-th write fails, Close mid-query, NumTries 1..4, resend delay 0 and non-zero), runtime oracles (datagrams per t, OutstandingTransactions == 0, module goroutines back to baseline after 20 repetitions) and bootstrap / announce / getput scenarios that finish, fail to start or are stopped.",
+      IDEAL + "Goroutine accounting is an observation of the runtime, not a theorem.",
+      "Lean 4 theorems + abstract interpretation certificate over regenerated CFGs + trace validation with fault enumeration")
+claim("C20", "DESIGN.md section 7 (C20)",
+      "Kernel-checked theorems over an exact-arithmetic model of the token bucket (x/time/rate advance/reserveN for n = +-1, incl. its behaviour on instants that step back) and of writeToNode's gate and the reply / error / per-query policies: grants + tokens never exceed burst + rate*t on a monotone clock, hence the prefix and any-window bounds; every rated datagram is preceded by its own grant; without budget nothing is sent (or the send waits until the token is covered); replies and errors are always rated; the policy table; "
+      "regenerated source facts (single WriteTo site, limiter call dominates the write, refusal returns, give-back on error, arguments of every writeToNode call, the decision trees of the query policy). A kept counterexample shows the bound fails when instants reach the limiter out of order, which is what /repo did before repair 5c6597a. "
+      "Tied to the code by differential execution of rate.Limiter against the Lean bucket on float-exact synthetic timelines and by floods of every method from many spoofed sources against real servers with tight limiters (also several servers sharing one limiter), concurrent outbound queries with every flag combination, WaitToReply on/off, injected write failures; oracle: every prefix window of observed rated writes <= burst + rate*t (sound without slack because a write follows its grant).",
+      IDEAL + "x/time/rate is assumed to be the modelled bucket (differential-tested on timelines where float64 is exact). Sub-windows not anchored at the limiter's creation are judged by the theorem, not by wall-clock measurements. Reservation.Cancel on context end is not modelled (it never yields a datagram).",
+      "Lean 4 theorems + regenerated structural facts + differential correspondence + flood trace validation")
